@@ -151,9 +151,17 @@ def gen(seed, tier="quick"):
     def small(depth, node_ok=True):
         return g.fill_tree(g.tree_shape(depth, 4, node_ok=node_ok), lambda i: _leaf())
 
+    prev = {}
+
     def block():
         t = small(r.randrange(0, 3))
         s = small(r.randrange(0, 3))
+        if prev and r.random() < 0.4:
+            # same shape as the previous block's trees, one node perturbed (dict key renamed, list<->tuple, ...): structures that
+            # a coarse cache key (hash, leaf count) cannot tell apart
+            t, _ = perturb(r, prev["t"])
+            s = copy.deepcopy(prev["s"]) if r.random() < 0.5 else perturb(r, prev["s"])[0]
+        prev["t"], prev["s"] = t, s
         ops = []
         bound = r.choice(("both", "both", "both", "T", "none", "other"))
         if bound in ("both", "T", "other"):
@@ -191,7 +199,7 @@ def gen(seed, tier="quick"):
                 ops.append({"op": "obs"})
         return {"op": "ctx", "body": ops, "exit": "ret"}
 
-    prog = [block() for _ in range(r.randrange(1, 3))]
+    prog = [block() for _ in range(r.randrange(1, 4))]
     for _ in range(r.randrange(1, 4)):
         s_ = r.choice(STRINGS) if r.random() < 0.93 else r.choice((3, None))
         prog.append({"op": "build", "spec": {"k": "tree", "leaf": "int", "struct": s_}})
